@@ -19,7 +19,7 @@ from pbt.common import HarnessError, Violation, case_hash, run_hypothesis
 
 ID = 'C14'
 RULE = ('Hypothesis: DSL pattern tree x generated multi-line file content (pattern witnesses embedded in lines, '
-        'non-ASCII, \\n / \\r\\n / \\r line ends) written as UTF-8 to a fresh temp file x instance state (plain / compile() / get_compiled_pattern kept or discarded) x every public method that '
+        'non-ASCII, \\n / \\r\\n / \\r line ends) written as UTF-8 to a fresh temp file (path spelled plainly, with ./ and //, through a symlink and .., or relative) x instance state (plain / compile() / get_compiled_pattern kept or discarded) x every public method that '
         'has an is_path parameter (found by introspection) x window sizes 0..len+3 and invalid sizes. '
         'Non-trivial = the pattern has >= 1 match in the content and the content has >= 2 lines or a non-ASCII '
         'character. Distinct = distinct (tree, content, window) serialisations.')
@@ -118,7 +118,19 @@ def check_case(case, ctx):
     shutil.rmtree(d, ignore_errors=True)
     os.makedirs(d)
     try:
-        path = os.path.join(d, 'src.txt')
+        # the file lives in d/real/sub; d/link is a symlink to d/real/sub/deeper, and d/src.txt is a decoy with other content, so a
+        # path spelled through the symlink and '..' names the real file for the OS but the decoy after a lexical "normalisation"
+        real = os.path.join(d, 'real', 'sub')
+        os.makedirs(os.path.join(real, 'deeper'))
+        os.symlink(os.path.join(real, 'deeper'), os.path.join(d, 'link'))
+        with open(os.path.join(d, 'src.txt'), 'w', encoding='utf-8') as f:
+            f.write('DECOY 1 a\n' * 3)
+        spelling = case.get('spelling', 'plain')
+        path = {'plain': os.path.join(real, 'src.txt'),
+                'dot': os.path.join(d, 'real', '.', 'sub') + os.sep + os.sep + 'src.txt',
+                'dotdot_symlink': os.path.join(d, 'link', '..', 'src.txt'),
+                'relative': os.path.relpath(os.path.join(real, 'src.txt'))}[spelling]
+        ctx.count(f'path_spelling:{spelling}')
         with open(path, 'wb') as f:
             f.write(content.encode('utf-8'))
         with open(path, 'r', encoding='utf-8') as f:
@@ -202,6 +214,7 @@ def strategy(spec, ctx):
         'bad': st.sampled_from(sorted(BAD_SIZES)),
         'state': st.sampled_from(['plain', 'plain', 'compile', 'gcp_keep', 'gcp_discard']),
         'repeat': st.sampled_from([1, 1, 1, 1, 1, 1, 1, 1, 1, 40, 700, 3000]),
+        'spelling': st.sampled_from(['plain', 'plain', 'dot', 'dotdot_symlink', 'relative']),
     })
 
 
